@@ -127,6 +127,8 @@ def run_target(contract, registry, classes):
         fn = ex.node
         is_region = "region" in contract
         stmts = X.find_region(fn, contract["region"]) if is_region else fn.body
+        # locals are named by ROLE in loop invariants / region clauses (`bind_locals`): resolved against the current source
+        contract = X.resolve_local_names(contract, stmts)
         consts = X.class_constants(ex.cls_node)
         chain = contract.get("consts_from")
         if chain:
